@@ -727,7 +727,19 @@ fn c08_cross_project_closure() -> Option<(String, String)> {
                 p.quick("bundle")
             ),
         );
-        p.write_yml("lib/zinoma.yml", &format!("name: lib\ntargets:\n  gen:\n    build: '{}'\n    output: [{{paths: [lib-gen.txt]}}]\n", p.script("lib-gen", &format!("echo x > lib-gen.txt; echo end lib-gen >> {}", p.trace.display()))));
+        p.write_yml("lib/zinoma.yml", &format!("name: lib\ntargets:\n  gen:\n    build: '{}'\n    output: [{{paths: [lib-gen.txt]}}]\n  pack:\n    dependencies: [gen]\n    build: '{}'\n", p.script("lib-gen", &format!("echo x > lib-gen.txt; echo end lib-gen >> {}", p.trace.display())), p.quick("lib-pack")));
+        if args == vec!["bundle"] {
+            // a bare name inside an imported project means a target of that project
+            let (code, err, to) = run_to_end(&p, &["lib::pack"]);
+            let mut got: Vec<String> = p.trace_lines().into_iter().filter(|l| l.starts_with("start ")).collect();
+            got.sort();
+            if to || code != Some(0) || got != vec!["start lib-gen".to_string(), "start lib-pack".to_string()] {
+                p.cleanup();
+                return Some(("executed set is not the closure (bare dependency name inside an imported project)".to_string(), format!("zinoma lib::pack: exit {:?}, scripts {:?}, expected exactly lib-gen and lib-pack; {}", code, got, err.lines().rev().take(2).collect::<Vec<_>>().join(" | "))));
+            }
+            let _ = std::fs::remove_file(&p.trace);
+            let _ = std::fs::remove_file(p.root.join("lib/lib-gen.txt"));
+        }
         let (code, err, to) = run_to_end(&p, &args);
         let mut got: Vec<String> = p.trace_lines().into_iter().filter(|l| l.starts_with("start ")).collect();
         got.sort();
@@ -828,8 +840,58 @@ fn c07_failing_command_inside_a_script() -> Option<(String, String)> {
     None
 }
 
+/// watch mode: a build over a service fails; the service does not depend on it and keeps running (same instance)
+/// through the failure and through the later successful rebuild
+fn c07_watch_failure_leaves_the_service_alone() -> Option<(String, String)> {
+    let p = Proj::new("c07w");
+    write(&p.root.join("src.txt"), b"bad");
+    let tr = p.trace.display().to_string();
+    p.write_yml(
+        "zinoma.yml",
+        &format!("targets:\n  db:\n    service: '{}'\n  app:\n    dependencies: [db]\n    input: [{{paths: [src.txt]}}]\n    build: '{}'\n", p.forever("db"), p.script("app", &format!("grep -q good src.txt; echo end app >> {}", tr))),
+    );
+    let mut c = p.spawn(&["--watch", "app"]);
+    let fail = |c: Child, p: &Proj, fp: String, d: String| -> Option<(String, String)> {
+        let e = wait_end_kill(c);
+        let r = Some((fp, format!("{} ; trace {:?} ; stderr tail: {}", d, p.trace_lines(), e)));
+        p.cleanup();
+        r
+    };
+    if !p.wait_line("start db", 30) || !p.wait_line("start app", 30) {
+        return fail(c, &p, "set-up: targets did not start".into(), String::new());
+    }
+    std::thread::sleep(Duration::from_millis(1500));
+    if !alive(&mut c) {
+        return fail(c, &p, "watch run ended after a failure".into(), String::new());
+    }
+    let services = |p: &Proj| p.leftovers().into_iter().filter(|(_, cmd)| cmd.contains("sleep 1000")).count();
+    if services(&p) != 1 {
+        return fail(c, &p, "a service the failed build depends on was stopped (it does not depend on the failed target)".into(), format!("{} service processes alive 1.5 s after app failed", services(&p)));
+    }
+    write(&p.root.join("src.txt"), b"good");
+    if !p.wait_line("end app", 30) {
+        return fail(c, &p, "the fixed input was never rebuilt".into(), String::new());
+    }
+    std::thread::sleep(Duration::from_millis(500));
+    let starts = p.trace_lines().iter().filter(|l| *l == "start db").count();
+    if services(&p) != 1 || starts != 1 {
+        return fail(c, &p, "the service was stopped or restarted although nothing below it changed".into(), format!("{} service processes alive, db started {} times", services(&p), starts));
+    }
+    signal(&c, libc::SIGINT);
+    let e = wait_end(c, 15);
+    let left = p.leftovers();
+    p.cleanup();
+    if e.timed_out {
+        return Some(("SIGINT not honoured".to_string(), String::new()));
+    }
+    if !left.is_empty() {
+        return Some(("process left behind".to_string(), format!("{:?}", left)));
+    }
+    None
+}
+
 pub fn bind_c07(rep: &mut Report) {
-    let sc: Vec<Scenario> = vec![("a multi-command script whose second command fails", c07_failing_command_inside_a_script), ("failing build below an aggregate below a build", || c07_failure(&["top"])), ("failing build below a build and a service", || c07_failure(&["both"])), ("the failing build requested directly", || c07_failure(&["bad"]))];
+    let sc: Vec<Scenario> = vec![("watch mode: a build over a service fails, the service keeps running", c07_watch_failure_leaves_the_service_alone), ("a multi-command script whose second command fails", c07_failing_command_inside_a_script), ("failing build below an aggregate below a build", || c07_failure(&["top"])), ("failing build below a build and a service", || c07_failure(&["both"])), ("the failing build requested directly", || c07_failure(&["bad"]))];
     run_scenarios(rep, "C07", sc);
 }
 
@@ -1018,6 +1080,10 @@ pub fn bind_c14(rep: &mut Report) {
         ("unknown key in a target", || rejected(Y_BOGUS, None, &["--clean", "a"])),
         ("unknown key, --clean alone", || rejected(Y_BOGUS, None, &["--clean"])),
         ("two projects with the same name", || rejected(Y_DUP_ROOT, Some(("x/zinoma.yml", Y_DUP_X)), &["--clean", "a"])),
+        ("two projects with the same name, --clean alone", || rejected(Y_DUP_ROOT, Some(("x/zinoma.yml", Y_DUP_X)), &["--clean"])),
+        ("reference to an unknown target, --clean alone: the error comes before anything is deleted", || rejected(Y_UNKNOWN, None, &["--clean"])),
+        ("dependency cycle, --clean alone", || rejected(Y_CYCLE, None, &["--clean"])),
+        ("output of a service as input, --clean alone", || rejected(Y_SVC_OUTPUT, None, &["--clean"])),
     ];
     run_scenarios(rep, "C14", sc);
 }
